@@ -71,23 +71,66 @@ def update_castling_rule(ctx, facts, rid):
     if guard_all is not None:
         r.check(guard_all[0] == allm, "early-exit", "the early exit of update_castling tests %#x, not all six home squares %#x"
                 % (guard_all[0], allm), what="early exit mask = all home squares")
-    # hash bracket
-    ok = False
-    why = "no `castling != b.r.castling` block"
-    if final is not None:
-        sub = final[2].get("else", [])
-        ev = [m for m, _c, _i in walk_tree(sub) if m[0] == "store"]
-        why = "stores: " + "; ".join("%s := %s" % (show(m[1]), show(m[2])) for m in ev)
-        if len(ev) == 3 and show(ev[0][1]) == "*b.hash" and show(ev[1][1]) == "*b.r.castling" and show(ev[2][1]) == "*b.hash":
-            def keyed(v, ver):
-                terms = _xor_terms(v)
-                lds = [t for t in terms if t[0] == "ld" and show(t[2]) == "*b.hash"]
-                cast = [t for t in terms if t[0] == "tbl" and t[1] == ("named", "owlchess::zobrist::CASTLING")]
-                return (len(terms) == 2 and len(lds) == 1 and len(cast) == 1 and cast[0][2][0] == "ld"
-                        and show(cast[0][2][2]) == "*b.r.castling" and cast[0][2][1] == ver)
-            v0 = 0
-            ok = keyed(ev[0][2], v0) and keyed(ev[2][2], v0 + 1)
-    r.check(ok, "hash-bracket", "update_castling does not do hash ^= key(old rights); rights = new; hash ^= key(new rights): " + why,
+    # hash bracket - net effect along every path, whatever the shape of the code:
+    #   rights unchanged: hash unchanged;  rights r0 -> r: hash' = hash ^ CASTLING[r0] ^ CASTLING[r]
+    from .fx import tree_paths, path_value
+    ok = True
+    why = ""
+    n_changed = 0
+    for events, choices in tree_paths(tree):
+        if events[-1][0] != "ret":
+            continue
+        hash_terms = [("hash0",)]
+        rights = [("r0",)]              # successive values of b.r.castling along the path
+
+        def canon_idx(idx):
+            u = idx
+            if u[0] == "ld" and show(unstamp(u[2])) == "*b.r.castling":
+                return rights[min(u[1], len(rights) - 1)]
+            for i, rv in enumerate(rights):
+                if u == rv:
+                    return rv
+            return ("val", u)
+        for e in events:
+            if e[0] != "store":
+                continue
+            tgt = show(unstamp(e[1]))
+            val = path_value(e[2], choices)
+            if tgt == "*b.r.castling":
+                rights.append(canon_idx(val))
+            elif tgt == "*b.hash":
+                terms = []
+                for t in _xor_terms(val):
+                    if t[0] == "ld" and show(unstamp(t[2])) == "*b.hash":
+                        terms += hash_terms
+                    elif t[0] == "tbl" and t[1] == ("named", "owlchess::zobrist::CASTLING"):
+                        terms.append(("K", canon_idx(t[2])))
+                    else:
+                        terms.append(("other", show(unstamp(t))[:60]))
+                out = []
+                for t in terms:
+                    if t in out:
+                        out.remove(t)
+                    else:
+                        out.append(t)
+                hash_terms = out
+        final = rights[-1]
+        if len(rights) == 1:
+            good = hash_terms == [("hash0",)]
+        else:
+            n_changed += 1
+            want = [("hash0",)] + ([("K", ("r0",)), ("K", final)] if final != ("r0",) else [])
+            good = sorted(map(repr, hash_terms)) == sorted(map(repr, want))
+        if not good:
+            ok = False
+            why = "on a path with %d stores to the rights the hash ends as %s" % (len(rights) - 1, " ^ ".join(
+                "hash" if t == ("hash0",) else ("CASTLING[%s]" % ("old" if t[1] == ("r0",) else ("new" if t[1] == final else "intermediate")) if t[0] == "K" else t[1])
+                for t in hash_terms))
+            break
+    if ok and n_changed == 0:
+        ok = False
+        why = "no path changes the castling rights"
+    r.check(ok, "hash-bracket", "update_castling does not leave hash' = hash ^ key(old rights) ^ key(new rights): " + why,
             site=ctx.site(fn), what="hash ^= CASTLING[old]; store; hash ^= CASTLING[new]")
 
 
